@@ -51,6 +51,7 @@ def check(prog: Program, rep):
     r4(prog, rep)
     r5(prog, rep)
     r6(prog, rep)
+    name_based_readback(prog, rep, "C12.R6")
     rep.rule("C12.R7", "bounds handed to add_variables become the bounds of the variables: scalar recognition covers numpy scalars (no silent default)", floor=1)
     bounds_materialised(prog, rep, "C12.R7")
     integer_bounds_rounded(prog, rep, "C12.R7")
@@ -985,6 +986,28 @@ def r6(prog, rep):
 
 # ------------------------------------------------------------------------------------------------ R7
 NUMERIC_ABCS = {"np.number", "np.generic", "numpy.number", "numpy.generic", "numbers.Number", "numbers.Real", "Number", "Real"}
+
+
+def name_based_readback(prog, rep, RID):
+    """A getter that rebuilds the index of a variable from its *name* is exact only if name -> index is injective and parseable; HiGHS
+    names are `prefix + repr(index)` with every blank removed, so indices containing a blank or an apostrophe are merged or lost.  Every
+    public getter of SolverWrapper that returns values per index either works from the Variable objects / column indices, or is reported."""
+    ci = prog.cls("SolverWrapper")
+    n = 0
+    for m in ci.methods.values():
+        if m.name.startswith("_") or not m.name.startswith("get_"):
+            continue
+        names_read = [c for c in calls_in(m.node) if isinstance(c.func, ast.Attribute) and c.func.attr in ("get_all_variable_names", "getVarName", "getColName", "allVariableNames")]
+        parses = [c for c in calls_in(m.node) if (isinstance(c.func, ast.Attribute) and c.func.attr in ("parse_var_name", "match", "split", "fullmatch")) and names_read]
+        builds_dict = any(isinstance(st, ast.Assign) and isinstance(st.targets[0], ast.Subscript) for st in ast.walk(m.node)) or any(isinstance(x, ast.DictComp) for x in ast.walk(m.node))
+        if not (names_read and parses and builds_dict):
+            continue
+        n += 1
+        rep.violation(RID, f"SolverWrapper.{m.name}:name-based-readback", f"{m.name} rebuilds the index of each variable by parsing its name (`{norm(parses[0])[:60]}`): HiGHS names "
+                      "are prefix + repr(index) with every blank removed, so the variable ('a b', 'c', 0) comes back under ('ab', 'c', 0) - overwriting a different variable of that "
+                      "index - and (\"a'b\", 'c', 0) is dropped; values are not read back for exactly the variables asked for (get_values, by column index, is exact)", m.loc(parses[0]))
+    if n == 0:
+        rep.ok(RID, "SolverWrapper:name-based-readback", "no public getter rebuilds indices from variable names", ci.methods["get_values"].loc())
 
 
 def integer_bounds_rounded(prog, rep, RID):
